@@ -12,6 +12,7 @@ import (
 	"go/constant"
 	"go/token"
 	"go/types"
+	"strings"
 
 	"golang.org/x/tools/go/packages"
 )
@@ -169,9 +170,18 @@ func spawnWindows(p *packages.Package) []spawnWindow {
 // growthChecks lists, for every `if vm.fp[i]+Addr(fn.NumReg[i]) > vm.st[i] { vm.moreXStack() }`
 // of the call instructions, the comparison operator used.
 func growthChecks(p *packages.Package) (ops []string) {
-	fd := findMethod(p, "VM", "run")
+	return growthChecksIn(p, "run", "vm.fp[")
+}
+
+// swapGrowthChecks does the same for the `if a[i]+tot+bs > vm.st[i]` tests of VM.swapStack.
+func swapGrowthChecks(p *packages.Package) (ops []string) {
+	return growthChecksIn(p, "swapStack", "a[")
+}
+
+func growthChecksIn(p *packages.Package, method, lhsPrefix string) (ops []string) {
+	fd := findMethod(p, "VM", method)
 	if fd == nil {
-		panic("method VM.run not found")
+		panic("method VM." + method + " not found")
 	}
 	ast.Inspect(fd.Body, func(n ast.Node) bool {
 		is, ok := n.(*ast.IfStmt)
@@ -183,15 +193,24 @@ func growthChecks(p *packages.Package) (ops []string) {
 			return true
 		}
 		l, r := exprString(be.X), exprString(be.Y)
-		if len(r) >= 6 && r[:6] == "vm.st[" && len(l) > 6 && l[:6] == "vm.fp[" {
+		if strings.HasPrefix(r, "vm.st[") && strings.HasPrefix(l, lhsPrefix) {
 			ops = append(ops, be.Op.String())
 		}
 		return true
 	})
 	if len(ops) == 0 {
-		panic("run: no stack growth checks found")
+		panic(method + ": no stack growth checks found")
 	}
 	return ops
+}
+
+func allOps(ops []string, op string) bool {
+	for _, o := range ops {
+		if o != op {
+			return false
+		}
+	}
+	return true
 }
 
 func init() {
@@ -224,14 +243,11 @@ func init() {
 		}
 		b.WriteString("].\n\n")
 		ops := growthChecks(rt)
-		allGt := true
-		for _, o := range ops {
-			if o != ">" {
-				allGt = false
-			}
-		}
-		fmt.Fprintf(b, "(* VM.run: the %d stack growth tests `vm.fp[i]+Addr(fn.NumReg[i]) > vm.st[i]` all use > *)\n", len(ops))
-		fmt.Fprintf(b, "Definition growth_checks : N := %d.\nDefinition growth_checks_all_gt : bool := %s.\n", len(ops), coqBool(allGt))
+		fmt.Fprintf(b, "(* VM.run: the %d stack growth tests `vm.fp[i]+Addr(fn.NumReg[i]) OP vm.st[i]`: do all use >, do all use >= *)\n", len(ops))
+		fmt.Fprintf(b, "Definition growth_checks : N := %d.\nDefinition growth_checks_all_gt : bool := %s.\nDefinition growth_checks_all_ge : bool := %s.\n", len(ops), coqBool(allOps(ops, ">")), coqBool(allOps(ops, ">=")))
+		sops := swapGrowthChecks(rt)
+		fmt.Fprintf(b, "(* VM.swapStack: the %d tests `a[i]+tot+bs OP vm.st[i]` *)\n", len(sops))
+		fmt.Fprintf(b, "Definition swap_growth_checks : N := %d.\nDefinition swap_growth_checks_all_ge : bool := %s.\n", len(sops), coqBool(allOps(sops, ">=")))
 		return nil
 	})
 }
